@@ -71,7 +71,10 @@ AnnTerms(tier) ==
   LET leaves == { T0("int"), T0("str"), T0("None"), T0("Loc"), P!TL(<< <<"str", "a">> >>) }
       one == leaves \cup { P!T1(c, x) : c \in {"list", "Optional", "set"}, x \in {T0("int"), T0("Loc")} }
                     \cup { P!T2("dict", T0("str"), T0("int")), P!T2("Union", T0("int"), T0("str")), P!T2("Or", T0("int"), T0("None")),
-                           P!T2("Callable", T0("int"), T0("str")) }
+                           P!T2("Callable", T0("int"), T0("str")),
+                           \* a tuple of variable length is one result; an alias means what it abbreviates (a tuple: one result per element)
+                           P!T1("VarTuple", T0("int")), P!T1("Alias", P!T1("VarTuple", T0("int"))), P!T1("Alias", P!T2("tuple", T0("int"), T0("str"))),
+                           P!T1("Alias", P!T1("list", T0("int"))), P!T1("Alias", T0("Loc")) }
       few == { T0("int"), T0("str"), T0("None"), P!T1("list", T0("int")), P!T1("Optional", T0("Loc")) }
   IN one \cup { P!T2("tuple", x, y) : x \in few, y \in few }
          \cup { P!T3("tuple", x, y, z) : x \in {T0("int"), T0("None")}, y \in few, z \in {T0("str"), T0("None")} }
@@ -146,8 +149,8 @@ Spec == Init /\ [][Next]_vars /\ WF_vars(Next)
 Covers(ts, vals) ==    \* every returned literal is covered at its position
   \A v \in vals : \A i \in 1..Len(v) : i <= Len(ts) /\ LitAtom(v[i]) \in ts[i]
 Inv_C07_NoneHasNoResults == (pc = "done" /\ sc.mode = "ann" /\ sc.ret.k = "None") => types = <<>>
-Inv_C07_TupleSplits == (pc = "done" /\ sc.mode = "ann" /\ sc.ret.k = "tuple") => Len(types) = Len(sc.ret.a)
-Inv_C07_OtherIsOne == (pc = "done" /\ sc.mode = "ann" /\ sc.ret.k \notin {"None", "tuple"} /\ P!Canon(sc.ret) # {Null}) => Len(types) = 1
+Inv_C07_TupleSplits == (pc = "done" /\ sc.mode = "ann" /\ P!Unalias(sc.ret).k = "tuple") => Len(types) = Len(P!Unalias(sc.ret).a)
+Inv_C07_OtherIsOne == (pc = "done" /\ sc.mode = "ann" /\ P!Unalias(sc.ret).k \notin {"None", "tuple"} /\ P!Canon(sc.ret) # {Null}) => Len(types) = 1
 Inv_C07_Cover == (pc = "done" /\ sc.mode = "inf" /\ ~OnlyNone(ReturnValues(sc.body))) => Covers(types, ReturnValues(sc.body))
 Inv_C07_NoReturnNoResult == (pc = "done" /\ sc.mode = "inf" /\ ReturnValues(sc.body) = {}) => types = <<>>
 Inv_C07_NamesDistinct == pc = "done" => \A i, j \in 1..Len(names) : (i # j /\ names[i] # "*") => names[i] # names[j]
